@@ -640,7 +640,8 @@ def c09_groups(tier, tag='C09'):
         gs.append(Group('%s.tGswAddMuH.k=%d.l=%d' % (tag, K, L), 'c09_extprod.c', 'h_tGswAddMuH', extract=[(TG, 'tGswAddMuH')], loops=True, backend=ADDMU_BACKEND,
                         defines=dict(d, H_ADDMUH=None, VERIF_BGBIT={1: 8, 2: 10, 3: 7, 4: 8}[L]), gen={'rows2.inc': rows2}, timeout=1200, instance=dict(inst, Bgbit={1: 8, 2: 10, 3: 7, 4: 8}[L]), replay=('gadget', 'tGswAddMuH')))
         gs.append(Group('%s.rowwise.k=%d.l=%d' % (tag, K, L), 'c09_extprod.c', 'h_tgsw_rowwise',
-                        extract=[(TGF, 'tGswToFFTConvert'), (TG, 'tGswClear'), (TG, 'tGswMulByXaiMinusOne')], defines=dict(d, H_CONVERT=None), unwind=U, instance=inst))
+                        extract=[(TGF, 'tGswToFFTConvert'), (TG, 'tGswClear'), (TG, 'tGswMulByXaiMinusOne'), (TGF, 'tGswFromFFTConvert'), (TGF, 'tGswFFTClear'), (TGF, 'tGswFFTAddH')],
+                        defines=dict(d, H_CONVERT=None), unwind=U, instance=inst))
     TLF = 'tlwe-fft-operations.cpp'
     for K in ([1, 2] if tier == 'quick' else [1, 2, 3]):
         gs.append(Group('%s.tlwe_rowwise.k=%d' % (tag, K), 'c09_extprod.c', 'h_tlwe_rowwise',
